@@ -285,7 +285,11 @@ mod v_iface_pollat {
         // still answered exactly: `asked == 0` iff this poll would not have tried to transmit anything,
         // and in that case the device was never consulted, so the poll ran exactly as it would have on a
         // device that accepts every frame.  (When `asked > 0` the harnesses claim nothing.)
-        // SLAAC runs on Ethernet (modelling note at the top).  No address is configured through
+        // SLAAC runs on Ethernet (modelling note at the top); its history stays in the soliciting phases
+        // (once a router advertisement has been processed `sync_slaac_state` becomes reachable for the
+        // solver, and its nested loops over heapless containers, unrolled to the bound of 18 that the
+        // 16-byte address comparisons force, exceed 8 GB; stored routes/prefixes and the Maintaining
+        // phase are covered at `Slaac` level in iface_slaac.rs).  No address is configured through
         // update_ip_addrs, so no multicast join is pending (MLD is outside C13).
         pub(super) struct AskDev {
             pub(super) medium: Medium,
@@ -332,7 +336,7 @@ mod v_iface_pollat {
         }
 
         pub(super) fn nonspin_body() {
-            poll_env!(dev, iface, sockets, now, tag, 3, queued);
+            poll_env!(dev, iface, sockets, now, tag, 2, queued);
             let nowi = us(now);
             crate::vdump!("PRE now={} slaac={:?} udp_queued={}", nowi, iface.inner.slaac, queued);
             let res = iface.poll(nowi, &mut dev, &mut sockets);
@@ -341,7 +345,6 @@ mod v_iface_pollat {
             crate::vdump!("POST transmit attempts={} poll={:?} slaac={:?} poll_at={:?} poll_delay={:?}", asked, res, iface.inner.slaac, d, iface.poll_delay(nowi, &sockets));
             kani::cover!(asked == 0 && tag == 1, "idle poll while waiting for the solicitation interval");
             kani::cover!(asked == 0 && tag == 2, "idle poll after the last solicitation");
-            kani::cover!(asked == 0 && tag == 3 && d.is_none(), "idle poll, router known, nothing stored");
             kani::cover!(asked > 0 && tag == 0 && !queued, "first solicitation attempted");
             if asked == 0 {
                 // nothing received, nothing to transmit: the deadline lies ahead or is absent
@@ -354,7 +357,7 @@ mod v_iface_pollat {
         }
 
         pub(super) fn early_body() {
-            poll_env!(dev, iface, sockets, now, tag, 3, queued);
+            poll_env!(dev, iface, sockets, now, tag, 2, queued);
             let nowi = us(now);
             crate::vdump!("PRE now={} slaac={:?} udp_queued={}", nowi, iface.inner.slaac, queued);
             let d = iface.poll_at(nowi, &sockets);
@@ -370,7 +373,7 @@ mod v_iface_pollat {
             crate::vdump!("POST transmit attempts={} slaac={:?}", dev.asked, iface.inner.slaac);
             kani::cover!(tag == 1 && t > now, "probe inside the solicitation interval");
             kani::cover!(tag == 0 && d.is_none(), "first solicitation pending, yet no deadline advertised");
-            kani::cover!(tag == 3 && d.is_none() && t > now, "nothing stored: no deadline at all");
+            kani::cover!(tag == 2 && t > now, "probe after the last solicitation");
             assert!(dev.asked == 0, "prop:c13_iface_nothing_sent_before_poll_at");
         }
     }
@@ -403,7 +406,7 @@ mod v_iface_pollat {
         v6::combination_two_body();
     }
 
-    // @harness props=C13 cfg=KI6 tier=q to=900 mem=8 unwind=18 opts=nomem covers=4 funcs=Interface::poll;Interface::poll_at;Interface::poll_egress;Interface::poll_maintenance;Interface::ndisc_rs_egress;Interface::socket_egress;Interface::socket_ingress bounds=real_Interface::poll_on_Ethernet_with_SLAAC_enabled;_SLAAC_history_symbolic_(Start_|_1..=2_solicitations_|_3_unanswered_solicitations_|_router_answer_with_lifetime_0),_events_at_symbolic_instants,_no_stored_route/prefix;_device_without_pending_frames_that_counts_requested_transmit_tokens_and_grants_none_(claims_only_for_polls_that_request_none:_those_run_as_on_an_accepting_device);_one_UDP_socket_with_0..=1_queued_datagram;_fragmenter_empty;_no_multicast_join_pending;_now_<2^50_us
+    // @harness props=C13 cfg=KI6 tier=q to=900 mem=8 unwind=18 opts=nomem covers=3 funcs=Interface::poll;Interface::poll_at;Interface::poll_egress;Interface::poll_maintenance;Interface::ndisc_rs_egress;Interface::socket_egress;Interface::socket_ingress bounds=real_Interface::poll_on_Ethernet_with_SLAAC_enabled;_SLAAC_history_symbolic_within_the_soliciting_phases_(Start_|_1..=2_solicitations_|_3_unanswered_solicitations),_events_at_symbolic_instants;_device_without_pending_frames_that_counts_requested_transmit_tokens_and_grants_none_(claims_only_for_polls_that_request_none:_those_run_as_on_an_accepting_device);_one_UDP_socket_with_0..=1_queued_datagram;_fragmenter_empty;_no_multicast_join_pending;_now_<2^50_us
     #[kani::proof]
     pub(crate) fn poll_nonspin_iface() {
         #[cfg(feature = "proto-ipv6-slaac")]
